@@ -341,7 +341,7 @@ class Problem:
         zr = oracle.zr
         allvars = sorted(S.variables(roots), key=lambda v: v.args[0])
         results = []
-        nsat = 0
+        nsat = nunk = 0
         twin_names = getattr(self, "twin_names", set())
         for g in self.goals:
             r = Result(name=g.name, kind=g.kind, problem=self.name)
@@ -375,8 +375,12 @@ class Problem:
             if _DEBUG:
                 print("  [%s] %s: %s %.2fs terms=%s groups=%s %s" % (self.name, g.name, r["verdict"], r["seconds"], r.get("residual_terms"), r.get("groups"), r.get("detail", "")[:100]), flush=True)
             self.stats["queries"] += 1
-            if r["verdict"] == "sat" and g.name not in twin_names:
+            if g.name not in twin_names and r["verdict"] == "sat":
                 nsat += 1
+            elif g.name not in twin_names and r["verdict"] == "unknown" and r.get("residual_terms"):
+                nunk += 1
+                if nunk >= 40:
+                    nsat = max(nsat, self.max_sat)  # stop spending time on this job: it is inconclusive at best
             self.stats[r["verdict"]] = self.stats.get(r["verdict"], 0) + 1
             results.append(r)
         self.stats["total_s"] = round(time.time() - t0, 3)
@@ -448,7 +452,7 @@ class Problem:
                 raise Inconclusive(
                     "encoder self-check failed: DAG difference %.12g vs normal form %.12g (scale %.3g)" % (d, fr, scale)
                 )
-            if abs(d) > 1e-9 * scale:
+            if abs(d) > min(1e-9, 0.1 * (g.meta or {}).get("tol", 1e-7)) * scale:
                 all_zero = False
             if best is None or abs(d) / scale > best[1] / best[2]:
                 best = (env, abs(d), scale)
@@ -460,14 +464,25 @@ class Problem:
             # parameter point where the two sides differ visibly
             if not hasattr(self, "_wide"):
                 self._wide = []
-            for j in range(24):
+            for j in range(48):
                 if j >= len(self._wide):
-                    saved = self.env_range
-                    self.env_range = saved * (2.0 + (j % 3))
-                    try:
-                        self._wide.append((self._random_env(rnd, allvars), {}, {}, ([], {})))
-                    finally:
-                        self.env_range = saved
+                    if j % 2 == 0:
+                        # all parameters further out
+                        saved = self.env_range
+                        self.env_range = saved * (2.0, 3.0, 4.0, 6.0)[(j // 2) % 4]
+                        try:
+                            env = self._random_env(rnd, allvars)
+                        finally:
+                            self.env_range = saved
+                    else:
+                        # an ordinary point with one or two parameters pushed to an extreme value
+                        env = self._random_env(rnd, allvars)
+                        names = sorted(env)
+                        for _ in range(1 + (j // 2) % 2):
+                            nm = names[rnd.randrange(len(names))]
+                            if not any(nm.startswith(pref) for pref, _, _ in self.var_ranges):
+                                env[nm] = rnd.choice((-1.0, 1.0)) * rnd.choice((8.0, 12.0, 16.0))
+                    self._wide.append((env, {}, {}, ([], {})))
                 env, mm, vm, rc = self._wide[j]
                 try:
                     fa, ma = S.evalf_mag(conv.canon(g.a), env, mm, vm)
@@ -498,6 +513,11 @@ class Problem:
             self.stats["nf_s"] += time.time() - t0
         zero = not groups
         r["residual_terms"] = sum(len(x.n.t) for x in groups)
+        replay_tol = (g.meta or {}).get("tol", 1e-7)
+        if not zero and not numerically_zero and diff <= 30 * replay_tol * scale and g.name not in getattr(self, "twin_names", set()):
+            # the two sides differ symbolically, but nowhere among the sampled parameter points by more than the replay
+            # on real floating-point torch could confirm: no counterexample is claimed from this goal
+            raise Inconclusive("non-zero residual (%d terms) whose largest sampled effect is %.2g relative: below what a float replay can confirm" % (r["residual_terms"], diff / scale))
         if zero and diff > 1e-6 * scale:
             raise Inconclusive("normal form is zero but the DAGs differ numerically (%.3g)" % diff)
         if not zero and numerically_zero:
